@@ -3,6 +3,7 @@ import SpecVerif.Model.DFT
 import SpecVerif.Model.Correlation
 import SpecVerif.Model.Periodogram
 import SpecVerif.Model.Levinson
+import SpecVerif.Model.Sides
 /-
   Line-protocol driver for the executable model (no Mathlib anywhere below this file, so it links as a
   `lean_exe`).
@@ -111,6 +112,37 @@ def methodOf (s : String) : Option CorrMtx :=
   | "postwindowed" => some .postwindowed | "covariance" => some .covariance
   | "modified" => some .modified | _ => none
 
+def sideOf (s : String) : Option Side :=
+  match s with
+  | "onesided" => some .one | "twosided" => some .two | "centerdc" => some .center | _ => none
+
+def intK (i : Int) : K := if i < 0 then -((i.natAbs : Nat) : K) else ((i.natAbs : Nat) : K)
+
+/-- fold a list of target sides over a stored PSD; returns every intermediate PSD (`sides = t` history) -/
+def convertPath (isComplex : Bool) (nfft : Nat) : Side → List K → List Side → Option (List (List K))
+  | _, _, [] => some []
+  | cur, p, t :: ts =>
+    match convert cur t isComplex nfft p with
+    | none => none
+    | some q => (convertPath isComplex nfft t q ts).map (fun r => q :: r)
+
+/-- a history of `sides = t` assignments (`false`) and non-mutating `get_converted_psd(t)` calls (`true`);
+    returns what each operation exposes: the stored PSD after an assignment, the returned vector of a get -/
+def convertHistory (isComplex : Bool) (nfft : Nat) : Side → List K → List (Bool × Side) → Option (List (List K))
+  | _, _, [] => some []
+  | cur, p, (isGet, t) :: ops =>
+    match convert cur t isComplex nfft p with
+    | none => none
+    | some q =>
+      if isGet then (convertHistory isComplex nfft cur p ops).map (fun r => q :: r)
+      else (convertHistory isComplex nfft t q ops).map (fun r => q :: r)
+
+def opOf (s : String) : Option (Bool × Side) :=
+  match s.splitOn ":" with
+  | ["set", t] => (sideOf t).map (fun sd => (false, sd))
+  | ["get", t] => (sideOf t).map (fun sd => (true, sd))
+  | _ => none
+
 /-- a matrix as `[rows, cols]` followed by the rows -/
 def matReply (m : List (List K)) : List (List K) :=
   [((m.length : Nat) : K), (((m.getD 0 []).length : Nat) : K)] :: m
@@ -174,6 +206,31 @@ def handle (cmd : String) (hd : List String) (vs : List (List K)) : Reply K :=
   | "toeplitz" =>
       match toeplitz (scalAt vs 0) (vecAt vs 1) (vecAt vs 2) (vecAt vs 3) with
       | .ok x => .ok [x] | .error e => .error e
+  | "t2o" => .ok [twosided2onesided (vecAt vs 0)]
+  | "o2t" => .ok [onesided2twosided (vecAt vs 0)]
+  | "t2c" => .ok [twosided2centerdc (vecAt vs 0)]
+  | "c2t" => .ok [centerdc2twosided (vecAt vs 0)]
+  | "cshift" => .ok [cshift (vecAt vs 0) (natAt hd 0)]
+  | "rangebins" =>
+      match sideOf (strAt hd 0) with
+      | some sd => .ok [(rangeBins sd (natAt hd 1)).map intK]
+      | none => .error "value"
+  | "convpath" =>
+      -- convpath isComplex nfft cur t1 t2 ... | p     → the PSD after each `sides = t_i`
+      match sideOf (strAt hd 2), (hd.drop 3).mapM sideOf with
+      | some cur, some ts =>
+          match convertPath (natAt hd 0 = 1) (natAt hd 1) cur (vecAt vs 0) ts with
+          | some r => .ok r
+          | none => .error "assert"
+      | _, _ => .error "value"
+  | "convhist" =>
+      -- convhist isComplex nfft cur set:two get:center ... | p
+      match sideOf (strAt hd 2), (hd.drop 3).mapM opOf with
+      | some cur, some ops =>
+          match convertHistory (natAt hd 0 = 1) (natAt hd 1) cur (vecAt vs 0) ops with
+          | some r => .ok r
+          | none => .error "assert"
+      | _, _ => .error "value"
   | _ => .error "unknown"
 
 end Handlers
